@@ -428,7 +428,19 @@ pub fn explain_blind(text: &str) -> Option<&'static str> {
     };
     let starts = |i: usize, pat: &str| -> bool { let p: Vec<char> = pat.chars().collect(); i + p.len() <= cs.len() && cs[i..i + p.len()] == p[..] };
     let find_from = |i: usize, pat: &str| -> Option<usize> { let p: Vec<char> = pat.chars().collect(); (i..cs.len().saturating_sub(p.len() - 1)).find(|&j| cs[j..j + p.len()] == p[..]) };
+    // inside the quoted literals of a markup declaration "<?", "<!--" and "<![CDATA[" are just characters
+    let mut in_decl = false;
+    let mut in_literal: Option<char> = None;
     while i < cs.len() {
+        if let Some(q) = in_literal {
+            let c = cs[i];
+            if c == q { in_literal = None; }
+            if bad(c) && lead(&out) { out.push('n'); changed = true; } else { out.push(c); }
+            i += 1; continue;
+        }
+        if starts(i, "<!ENTITY") || starts(i, "<!ATTLIST") || starts(i, "<!NOTATION") { in_decl = true; }
+        else if in_decl && (cs[i] == '"' || cs[i] == '\'') { in_literal = Some(cs[i]); out.push(cs[i]); i += 1; continue; }
+        else if in_decl && cs[i] == '>' { in_decl = false; }
         // comments, CDATA sections and PI data are copied verbatim
         if starts(i, "<!--") { let e = find_from(i + 4, "-->").map(|e| e + 3).unwrap_or(cs.len()); out.extend(cs[i..e].iter()); i = e; continue; }
         if starts(i, "<![CDATA[") { let e = find_from(i + 9, "]]>").map(|e| e + 3).unwrap_or(cs.len()); out.extend(cs[i..e].iter()); i = e; continue; }
@@ -442,11 +454,14 @@ pub fn explain_blind(text: &str) -> Option<&'static str> {
         if bad(c) && lead(&out) { out.push('n'); changed = true; } else { out.push(c); }
         i += 1;
     }
-    if changed && refxml::parse(&out, false).wf { return Some("name-start"); }
+    // "well-formed again" = the references no longer agree that it is ill-formed (a violation needs both of them; libxml2 also
+    // reports a few non-fatal errors, e.g. a fragment identifier in a system literal, as not well-formed)
+    let repaired_ok = |t: &str| -> bool { refxml::parse(t, false).wf || refxml::expat_wf(t) == Some(true) };
+    if changed && repaired_ok(&out) { return Some("name-start"); }
     // finding "'<' that reaches an attribute value or content through an entity's replacement text is not detected"
-    if let Some(rep) = repair_entity_lt(text) { if refxml::parse(&rep, false).wf { return Some("entity-lt"); } }
+    if let Some(rep) = repair_entity_lt(text) { if repaired_ok(&rep) { return Some("entity-lt"); } }
     // both findings in one text: each repair alone leaves the other defect's zone
-    if changed { if let Some(rep) = repair_entity_lt(&out) { if refxml::parse(&rep, false).wf { return Some("name-start+entity-lt"); } } }
+    if changed { if let Some(rep) = repair_entity_lt(&out) { if repaired_ok(&rep) { return Some("name-start+entity-lt"); } } }
     None
 }
 
